@@ -3,15 +3,70 @@ import BppProofs.Lemmas.ParamList
 # C02 — bulk parameter updates are atomic; names stay unique; copies are independent
 (src/Bpp/Numeric/ParameterList.{h,cpp}, src/Bpp/Numeric/AbstractParametrizable.{h,cpp})
 
-Property theorems only; helper lemmas are in `Lemmas/ParamList.lean`.
+Property theorems only; helper lemmas are in `Lemmas/ParamList.lean`.  The model
+(`BppModel/ParamList.lean`) is a heap of parameter objects plus list registers holding
+object ids; `step` interprets one operation, `run` a history.  `Inv` is the invariant of
+every reachable state: ids valid, every object accepted by its own constraint, names
+pairwise different in every list.
 -/
 namespace Bpp.C02
 open Bpp Bpp.ParamList
 
-/-- `addParameter` refuses a name that is already present and changes nothing. -/
+/-! ## Histories: names stay unique, constraints stay satisfied -/
+
+/-- the invariant holds along every history without `setNamespace` (all sizes, all lengths) -/
+theorem inv_run (ops : List Op) (hops : ∀ op ∈ ops, op.keepsNames = true) {s : State} (inv : Inv s) :
+    Inv (run s ops) := by
+  induction ops generalizing s with
+  | nil => exact inv
+  | cons op rest ih =>
+    exact ih (fun o ho => hops o (List.mem_cons_of_mem _ ho)) (inv_step inv op (hops op (List.mem_cons_self ..)))
+
+/-- **names_unique**: after any history of add / include / share / set* / match* / delete /
+sub-list / copy / assign operations (every operation of the machine except `setNamespace`),
+from the empty machine, the names of every list are pairwise different. -/
+theorem names_unique (ops : List Op) (hops : ∀ op ∈ ops, op.keepsNames = true) (k : Nat) :
+    (names (run State.init ops).heap ((run State.init ops).lists k)).Nodup :=
+  (inv_run ops hops inv_init).names k
+
+/-- **list_param_inv**: along the same histories every object reachable from a list is
+accepted by its own constraint (C01's invariant through the list-level routes). -/
+theorem list_param_inv (ops : List Op) (hops : ∀ op ∈ ops, op.keepsNames = true) (k : Nat) :
+    ∀ i ∈ (run State.init ops).lists k, ((run State.init ops).heap.get i).ok = true :=
+  fun i hi => (inv_run ops hops inv_init).ok i ((inv_run ops hops inv_init).wf k i hi)
+
+/-- non-vacuity: a history mixing the operation kinds -/
+example : (names (run State.init [.add 0 ⟨"a", 1, none⟩, .add 0 ⟨"b", 2, none⟩, .copy 0 1,
+    .setParam 1 0 ⟨"c", 0, none⟩, .shareAll 1 0]).heap
+    ((run State.init [.add 0 ⟨"a", 1, none⟩, .add 0 ⟨"b", 2, none⟩, .copy 0 1,
+    .setParam 1 0 ⟨"c", 0, none⟩, .shareAll 1 0]).lists 1)) = ["c", "b", "a"] := by decide
+
+/-- **add_dup_refused**: `addParameter` refuses a name that is already present and changes nothing. -/
 theorem add_dup_refused (h : Store) (l : List ObjId) (p : Par) (hp : p.name ∈ names h l) :
     (addParameter h l p).err = some .bpp ∧ (addParameter h l p).heap = h ∧ (addParameter h l p).list = l := by
   have : hasParameter h l p.name = true := (hasParameter_iff h l p.name).2 hp
   simp [addParameter, this]
+
+/-- … and accepts a new name: one fresh object holding `p` is appended, nothing else changes. -/
+theorem add_new_appends (h : Store) (l : List ObjId) (p : Par) (hp : p.name ∉ names h l) :
+    (addParameter h l p).err = none ∧ (addParameter h l p).list = l ++ [h.next] ∧
+    (addParameter h l p).heap.get h.next = p ∧ ∀ i, i ≠ h.next → (addParameter h l p).heap.get i = h.get i := by
+  have : hasParameter h l p.name = false := (hasParameter_false_iff h l p.name).2 hp
+  simp only [addParameter, this]
+  refine ⟨rfl, rfl, by simp, fun i hi => by simp [hi]⟩
+
+/-! ## The two defects of the unchanged tree (both repaired in the library) -/
+
+/-- before the repair, `setParameter(1, Parameter("a"))` on `[a, b]` gave the names `[a, a]` -/
+theorem setParameter_unrepaired_dup_witness :
+    let s := run State.init [.add 0 ⟨"a", 1, none⟩, .add 0 ⟨"b", 2, none⟩]
+    let r := setParameterUnrepaired s.heap (s.lists 0) 1 ⟨"a", 3, none⟩
+    r.err = none ∧ ¬ (names r.heap r.list).Nodup := by decide
+
+/-- before the repair, `createSubList({0,0})` gave a sub-list with the names `[a, a]` -/
+theorem createSubListIdx_unrepaired_dup_witness :
+    let s := run State.init [.add 0 ⟨"a", 1, none⟩]
+    let r := createSubListIdxUnrepaired s.heap (s.lists 0) [] [0, 0]
+    r.err = none ∧ ¬ (names r.heap r.list).Nodup := by decide
 
 end Bpp.C02
